@@ -44,7 +44,7 @@ EXPECTED_PROBES = ["probe_frame_fragmented", "probe_frames_coalesced", "probe_un
                    "probe_same_text_after_remote_set", "probe_unencodable_request_in_burst", "probe_equal_text_of_different_kinds",
                    "probe_second_connection_reads_during_a_call", "probe_response_above_16MiB",
                    "probe_remote_definition_of_a_function_used_locally_first", "probe_chain_backend", "probe_unbound_symbol", "net_stall",
-                   "probe_client_connects_during_a_call"]
+                   "probe_client_connects_during_a_call", "probe_server_calls_client"]
 WALL_CAP = {"quick": 400, "thorough": 3600}
 EXHAUSTIVE_NOTE = "configuration 'cuts' enumerates every (a<=b) split of the concatenated frames into three reads exhaustively for each generated case"
 
@@ -108,7 +108,7 @@ def scenario(ch, cfg):
                                                        "slow::{[gv];gv::x+1;yieldfn(0);gv}",
                                                        # a connection callback (it runs whenever a client connects) and a function that
                                                        # reads its parameter after it has taken a while
-                                                       "ocnt::0", ".srv.o::{[oh];oh::x;ocnt::ocnt+1;yieldfn(0);oh}", "slowx::{[gv];gv::x+1;yieldfn(0);gv+x}"]
+                                                       "ocnt::0", "cl::0", ".srv.o::{[oh];oh::x;:[ocnt=0;cl::x;0];ocnt::ocnt+1;yieldfn(0);oh}", "slowx::{[gv];gv::x+1;yieldfn(0);gv+x}"]
 
     def yieldfn(x):
         # a server-side function that takes a while (the other loops and threads run meanwhile)
@@ -136,7 +136,7 @@ def scenario(ch, cfg):
         ipc._ipc_tcp_server = ipc.TcpServerHandler()
         boot = boot + ["h::.cli(8889)"]
     env.start_server(src=boot)
-    w.run(until=lambda: env.listener_up(), max_steps=3000)
+    w.run(until=lambda: env.listener_up() and env.booted(), max_steps=6000)
     violations = []
     log = []
     state = {"vars": ["gv", "gs"], "fns": dict({n: a for n, _, a in defs}, useg=1), "proxies": {}, "dict": False, "remote_defs": 0}
@@ -177,11 +177,39 @@ def scenario(ch, cfg):
             stats["probe_dictionary_value"] += 1
         return got
 
+    # the other direction of the same connection: the server calls the client through the handle .srv.o received (the
+    # documented server push).  "Evaluating through a remote handle is equivalent to evaluating on the [serving] interpreter"
+    # - here the serving interpreter is the client's; ctwin mirrors what is defined there
+    ctwin = KlongInterpreter()
+    for line in ("csq::{x*x}", "cpair::{x,y}", "cv::[1 2 3]"):
+        cl(line)
+        ctwin(line)
+
+    def reverse(kind, what, call_fn, twin_fn):
+        try:
+            want = ("ok", canon(twin_fn()))
+        except BaseException as e:   # noqa
+            if isinstance(e, SystemExit):
+                raise
+            want = ("exc", type(e).__name__)
+        try:
+            got = ("ok", canon(call_fn()))
+        except BaseException as e:   # noqa
+            if isinstance(e, SystemExit):
+                raise
+            got = ("exc", type(e).__name__)
+        log.append(f"server->client {what[:60]} -> {str(got)[:60]}")
+        w.note(log[-1])
+        if got[0] == "exc":
+            state["client_exc"] = True
+        if got != want and not (got[0] == "exc" and want[0] == "exc"):
+            viol(f"C13:reverse:value-mismatch:{kind}", f"server calling the client: {what[:120]} gave {str(got)[:160]}; the same operation on the client interpreter gives {str(want)[:160]}")
+
     def run_ops():
         cl(f"f::.cli({PORT})")
         for i in range(nops):
             last = i == nops - 1
-            k = ch.weighted([6, 4, 4, 4, 2, 2, 2, 2, 2, 1 if last else 0, 2, 1, 1, 1], "op")
+            k = ch.weighted([6, 4, 4, 4, 2, 2, 2, 2, 2, 1 if last else 0, 2, 1, 1, 1, 2], "op")
             if k == 0:      # f("expr")
                 m = ch.weighted([5, 2, 2, 1, 1, 1], "expr")
                 if m == 0:
@@ -452,8 +480,46 @@ def scenario(ch, cfg):
                 if res2.get("v") != want2:
                     viol("C13:value-mismatch:dict-get-during-another-call", f"second connection d?:gv while f(:slow,42) was running on the server gave "
                          f"{str(res2.get('v'))[:100]}; the server's gv is {str(want2)[:100]}")
+            elif k == 14:   # the server evaluates on the client through its handle of this connection
+                def server_handle():
+                    try:
+                        return env.server.klong["cl"]
+                    except KeyError:
+                        return None
+                w.block_until(lambda: isinstance(server_handle(), ipc.NetworkClient), "server.handle")
+                snc = server_handle()
+                stats["probe_server_calls_client"] += 1
+                m = ch.draw(4, "rev.kind")
+                if m == 0:
+                    expr = gen_literal(ch, allow_undef=True, tag="re")
+                    reverse("eval-string", f'cl("{_q(expr)}")', lambda expr=expr: snc.call(expr), lambda expr=expr: ctwin(expr))
+                elif m == 1:
+                    lit = gen_literal(ch, allow_undef=False, tag="ra")
+                    val = ctwin(lit)
+                    reverse("fn-call", f"cl(:cpair,,{lit},,7)", lambda val=val: snc.call(ipc.KGRemoteFnCall(KGSym("cpair"), [val, 7])),
+                            lambda lit=lit: ctwin(f"cpair({lit};7)"))
+                elif m == 2:
+                    reverse("dict-get", "cld?:cv", lambda: ipc.NetworkClientDictHandle(snc).get(KGSym("cv")), lambda: ctwin("cv"))
+                else:
+                    lit = gen_literal(ch, allow_undef=False, tag="rs")
+                    val = ctwin(lit)
+                    nm = f"crv{i}"
+
+                    def setget(nm=nm, val=val):
+                        hnd = ipc.NetworkClientDictHandle(snc)
+                        hnd.set(KGSym(nm), val)
+                        return hnd.get(KGSym(nm))
+
+                    def tsetget(nm=nm, lit=lit):
+                        ctwin(f"{nm}::{lit}")
+                        return ctwin(nm)
+                    reverse("dict-set-get", f"cld,:{nm},,{lit}; cld?:{nm}", setget, tsetget)
+                    # ... and the client itself sees what the server stored there
+                    got_local = ("ok", canon(cl(nm))) if not state.get("client_exc") else None
+                    if got_local is not None and got_local != ("ok", canon(ctwin(nm))):
+                        viol("C13:reverse:value-mismatch:stored-value", f"the server stored {lit} as {nm} on the client; the client reads {str(got_local)[:120]}")
             elif k == 13:   # another client connects (the server's .srv.o callback runs) while this client's call is running on the server
-                stats["probe_client_connects_during_a_call"] += 1
+                stats["probe_client_connects_during_a_call", "probe_server_calls_client"] += 1
                 from sim.klnode import Node
                 newc = Node(w, net, f"E{i}")
                 delay = ch.draw(12, "conndelay")
